@@ -263,7 +263,7 @@ func runVerification(o RunOpts) (*RunResult, error) {
 	}
 	rr.Dir = dir
 	t1 := time.Now()
-	discharge(rr.Results, SolveOpts{Dir: dir, Timeout: o.Timeout, Portfolio: o.Portfolio, Jobs: o.Jobs, Kinds: o.Kinds, CrossCheck: o.CrossCheck})
+	discharge(rr.Results, SolveOpts{Dir: dir, Timeout: o.Timeout, Portfolio: o.Portfolio, Jobs: o.Jobs, Kinds: o.Kinds, CrossCheck: o.CrossCheck, Props: o.Props})
 	rr.SolveSeconds = time.Since(t1).Seconds()
 	return rr, nil
 }
